@@ -567,7 +567,7 @@ fn main() {
     };
     let schema = ast_to_type_system(&schema_doc);
 
-    let n_projects = if thorough { 160 } else { 44 };
+    let n_projects = if thorough { 120 } else { 44 };
     let mut cases: Vec<CaseOut> = vec![];
     let mut preludes: Vec<String> = vec![];
     let mut distinct: HashSet<String> = HashSet::new();
@@ -690,7 +690,8 @@ fn main() {
             cases.push(CaseOut {
                 term,
                 descr: json!({"project": pr.descr, "config_text": text, "config_format": format,
-                    "dts_text": tdts, "loader_js_text_head": tjs_l.chars().take(400).collect::<String>(),
+                    "dts_text": if thorough { Value::Null } else { json!(tdts) },
+                    "loader_js_text_head": if thorough { Value::Null } else { json!(tjs_l.chars().take(400).collect::<String>()) },
                     "dts_exports_from_text": {"named": te_dts.0, "default": te_dts.1},
                     "js_exports_from_text": {"named": te_js.0, "default": te_js.1},
                     "cli_dts_exports_from_text": te_cli.as_ref().map(|t| json!({"named": t.0, "default": t.1}))}),
